@@ -41,7 +41,7 @@ pub enum P {
     Not(Box<P>),
 }
 pub const FIELDS: [&str; 2] = ["x", "y"];
-pub const ALIASES: [&str; 3] = ["a", "b", "c"];
+pub const ALIASES: [&str; 4] = ["a", "b", "c", "d"];
 
 impl P {
     pub fn text(&self) -> String {
@@ -117,8 +117,8 @@ pub fn gen_pred(rng: &mut Rng, refs: &[usize], depth: u32) -> P {
 }
 
 /// self-referencing Kleene filter: mentions alias b at least once
-fn gen_selfref(rng: &mut Rng) -> P {
-    let core = P::Ref(if rng.chance(3, 4) { 0 } else { 1 }, *rng.pick(&OPS), 1, if rng.chance(3, 4) { 0 } else { 1 });
+pub fn gen_selfref_for(rng: &mut Rng, al: usize) -> P {
+    let core = P::Ref(if rng.chance(3, 4) { 0 } else { 1 }, *rng.pick(&OPS), al, if rng.chance(3, 4) { 0 } else { 1 });
     match rng.below(10) {
         0..=5 => core,
         6 => P::And(Box::new(core), Box::new(gen_pred(rng, &[0], 1))),
@@ -127,20 +127,22 @@ fn gen_selfref(rng: &mut Rng) -> P {
         _ => P::Not(Box::new(core)),
     }
 }
+fn gen_selfref(rng: &mut Rng) -> P { gen_selfref_for(rng, 1) }
 
 #[derive(Clone)]
-pub struct Ev { pub ty: usize, pub x: Option<Num>, pub y: Option<Num> }
+pub struct Ev { pub ty: usize, pub x: Option<Num>, pub y: Option<Num>, pub key: Option<u32> }
 pub const TYPES: [&str; 4] = ["A", "B", "C", "D"];
 
 impl Ev {
     pub fn text(&self) -> String {
         let f = |n: &Option<Num>| n.map(|n| n.e.to_string()).unwrap_or_else(|| "_".into());
-        format!("ev {} {} {} _", TYPES[self.ty], f(&self.x), f(&self.y))
+        format!("ev {} {} {} {}", TYPES[self.ty], f(&self.x), f(&self.y), self.key.map(|k| k.to_string()).unwrap_or_else(|| "_".into()))
     }
     pub fn event(&self, id: usize) -> Event {
         let mut e = Event::new(TYPES[self.ty]).with_field("id", Value::Int(id as i64));
         if let Some(n) = self.x { e = e.with_field("x", n.value()); }
         if let Some(n) = self.y { e = e.with_field("y", n.value()); }
+        if let Some(k) = self.key { e = e.with_field("k", Value::Int(k as i64)); }
         e
     }
 }
@@ -148,7 +150,7 @@ impl Ev {
 pub fn gen_ev(rng: &mut Rng, ty: usize) -> Ev {
     let x = if rng.chance(1, 25) { None } else { Some(num(rng)) };
     let y = if rng.chance(1, 12) { None } else { Some(num(rng)) };
-    Ev { ty, x, y }
+    Ev { ty, x, y, key: None }
 }
 
 pub struct Scenario { pub trail: bool, pub mk: u32, pub mr: usize, pub pa: Option<P>, pub pb: Option<P>, pub pc: Option<P>, pub evs: Vec<Ev> }
@@ -282,10 +284,10 @@ pub fn run(ctx: &mut Ctx, _name: &str) {
     // corpus: DESIGN.md probe B.x = 5,3,9 with x > b.x
     let probe = |trail: bool, tailty: Option<usize>| {
         let nn = |v: i64| Some(Num { e: 8 * v, as_float: false });
-        let mut evs = vec![Ev { ty: 0, x: nn(1), y: nn(0) }];
-        for v in [5, 3, 9] { evs.push(Ev { ty: 1, x: nn(v), y: nn(0) }); }
-        if !trail { evs.push(Ev { ty: 2, x: nn(0), y: nn(0) }); }
-        if let Some(t) = tailty { evs.push(Ev { ty: t, x: nn(7), y: nn(0) }); }
+        let mut evs = vec![Ev { ty: 0, x: nn(1), y: nn(0), key: None }];
+        for v in [5, 3, 9] { evs.push(Ev { ty: 1, x: nn(v), y: nn(0), key: None }); }
+        if !trail { evs.push(Ev { ty: 2, x: nn(0), y: nn(0), key: None }); }
+        if let Some(t) = tailty { evs.push(Ev { ty: t, x: nn(7), y: nn(0), key: None }); }
         evs
     };
     let selfref = Some(P::Ref(0, Op::Gt, 1, 0));
